@@ -113,3 +113,61 @@ def static_calls(w, fn_prefix, include_closures=True):
                 for bb, t in cfgmod.calls(bd):
                     out.append((bd, bb, t))
     return out
+
+
+def move_targets(b, local):
+    """locals that receive `local`'s value through plain `_x = move/copy _local` chains"""
+    out = {local}
+    changed = True
+    while changed:
+        changed = False
+        for blk in b.blocks:
+            if blk["cleanup"]:
+                continue
+            for s in blk["stmts"]:
+                if s["k"] == "assign" and s["rv"]["k"] == "use" and not s["place"]["proj"]:
+                    o = s["rv"]["a"]
+                    p = o.get("copy") or o.get("move")
+                    if p and not p["proj"] and p["local"] in out and s["place"]["local"] not in out:
+                        out.add(s["place"]["local"])
+                        changed = True
+    return out
+
+
+def iterator_names(b, outs):
+    """local id -> 'it<k>' for every iterator variable initialised from an into_iter call, k = ordinal of
+    the into_iter call in block order; also returns k -> the into_iter argument value"""
+    calls = {}
+    for e, o in all_calls(outs, lambda e: e[2] and e[2].endswith("into_iter")):
+        calls.setdefault(e[1], (e, o))
+    names, origin = {}, {}
+    for k, bb in enumerate(sorted(calls)):
+        e, o = calls[bb]
+        for l in move_targets(b, e[4]):
+            names[l] = "it%d" % k
+        origin["it%d" % k] = (e[3][0], o)
+    return names, origin
+
+
+import re as _re
+
+
+def renamer(names):
+    def rn(s):
+        def sub(m):
+            l = int(m.group(1))
+            return "&" + names.get(l, "_%d" % l)
+        s = _re.sub(r"&_(\d+)", sub, s)
+        s = _re.sub(r"<[^<>]*(?:<[^<>]*>[^<>]*)*>::next\(&(it\d+)\)", r"\1.next()", s)
+        return s
+    return rn
+
+
+def show_arg(nz, a):
+    if a[0] == "agg" and "Range" in a[1]:
+        return "%s{%s}" % (a[1].split("::")[-1], ", ".join("%s: %s" % (n, forms.show(nz.form(v))) for n, v in a[2]))
+    if a[0] in ("expr", "sym", "i"):
+        return forms.show(nz.form(a))
+    if a[0] == "ref":
+        return "&" + nz.path_atom(a[1])
+    return str(a)[:100]
